@@ -13,7 +13,7 @@ Open Scope Z_scope.
 
 (** Accepting an update never waits on a subscriber: whether a writer's tree
     write is enabled is a function of the cache fields (leaf store, delete
-    store, tree, pending announcements), the tree read locks held by walks and
+    store, tree, pending announcements, write mutexes held by writers), the tree read locks held by walks and
     the static subscription paths -- not of any queue, in-flight response,
     sent stream, stall or timeout. *)
 Theorem C08_writer_never_blocked :
@@ -123,7 +123,7 @@ Print Assumptions C08_ended_is_final.
     leaves are written: the writer and the other subscriber go on, the stalled
     backlog is one entry per leaf (counts 2 and 0), the timer ends it. *)
 Theorem C08_stall_example :
-  reachable (mkHyps true true false) 1 stall_subs stall_state /\
+  reachable (mkHyps true false) 1 stall_subs stall_state /\
   exists sb0 sb1, nth_error (st_subs stall_state) 0 = Some sb0 /\ nth_error (st_subs stall_state) 1 = Some sb1 /\
     s_end sb0 = true /\ s_sent sb0 = [RSync] /\
     s_queue sb0 = [(ILeaf 0, 2%nat); (ILeaf 1, 0%nat)] /\
